@@ -170,11 +170,19 @@ def layered_cases():
     out = []
     for layout in ('genuine+enc(forged)', 'enc(forged)+genuine', 'enc(genuine+enc(forged))', 'enc(enc(forged))', 'two-encrypted-assertions', 'enc(forged)-only',
                    # a bare xenc:EncryptedData (no EncryptedAssertion wrapper) as a direct child of the Response, next to a genuine encrypted / plain assertion
-                   'encrypted-assertion+bare-encrypted-data', 'bare-encrypted-data+encrypted-assertion', 'plain-assertion+bare-encrypted-data', 'bare-encrypted-data-in-extensions'):
+                   'encrypted-assertion+bare-encrypted-data', 'bare-encrypted-data+encrypted-assertion', 'plain-assertion+bare-encrypted-data', 'bare-encrypted-data-in-extensions',
+                   # an EncryptedData without Type (the tool hands back the bare octets) whose plaintext is a whole Response document: genuine assertion inside an
+                   # EncryptedAssertion wrapper + plain forged assertion
+                   'typeless-whole-document',
+                   # the forged assertion carries the genuine ID; where its Signature belongs sits an EncryptedData holding the genuine ds:Signature; an encrypted
+                   # advice assertion forces a second decryption round
+                   'signature-encrypted-in-place'):
         for sigcopy in (True, False):
             for setting in range(7):
                 for rsign in (False, True):
-                    out.append({'layout': layout, 'sigcopy': sigcopy, 'setting': setting, 'rsign': rsign})
+                    # the forged assertion carries an ID of its own, or the very ID of the genuine one (exemptions and look-ups that go by ID)
+                    for same_id in (False, True):
+                        out.append({'layout': layout, 'sigcopy': sigcopy, 'setting': setting, 'rsign': rsign, 'same_id': same_id})
     return out
 
 
@@ -189,7 +197,7 @@ def run_layered(case):
     import re
     sig = re.search(r'<ds:Signature.*?</ds:Signature>', genuine, re.S).group(0)
     forged = genuine.replace(sig, sig if case['sigcopy'] else '').replace('subject-0001', xmlmut.EVIL_NAME).replace('>Alice<', '>%s<' % xmlmut.EVIL_VALUE).replace(
-        'ID="%s"' % a['id'], 'ID="%s-forged"' % a['id'], 1)
+        'ID="%s"' % a['id'], 'ID="%s%s"' % (a['id'], '' if case.get('same_id') else '-forged'), 1)
     ef = build.encrypt_raw(forged, 2, enc_id='EDF')
     lay = case['layout']
     if lay == 'genuine+enc(forged)':
@@ -215,6 +223,17 @@ def run_layered(case):
     elif lay == 'bare-encrypted-data-in-extensions':
         items = [wrap(build.encrypt_raw(genuine, 2, enc_id='ED1'))]
         extra = {'extensions': ef}
+    elif lay == 'typeless-whole-document':
+        inner_doc = build.response_xml(dict(r, assertions=[wrap(genuine), forged]))
+        items = [wrap(build.encrypt_raw(inner_doc, 2, typ=None, enc_id='ED1'))]
+    elif lay == 'signature-encrypted-in-place':
+        u = genuine.replace('subject-0001', xmlmut.EVIL_NAME).replace('>Alice<', '>%s<' % xmlmut.EVIL_VALUE)
+        sig_ns = sig.replace('<ds:Signature ', '<ds:Signature xmlns:ds="%s" ' % build.DS, 1) if 'xmlns:ds=' not in sig.split('>', 1)[0] else sig
+        u = u.replace(sig, build.encrypt_raw(sig_ns, 2, enc_id='EDS') if case['sigcopy'] else '')
+        dummy = build.assertion_xml(dict(a, id='id-dummy-advice', signature=None))
+        adv = '<saml:Advice>%s</saml:Advice>' % wrap(build.encrypt_raw(dummy, 2, enc_id='EDA'))
+        u = u.replace('<saml:Conditions', adv + '<saml:Conditions', 1) if '<saml:Conditions' in u else u
+        items = [wrap(build.encrypt_raw(u, 2, enc_id='ED1'))]
     else:
         items = [wrap(x) for x in inner]
     rr = dict(r, assertions=items, **extra)
